@@ -78,3 +78,17 @@ def prefix_dep_package(case):
 
 def has_additional_bindings(case):
     return any((m.get("http") or {}).get("additional") for _f, _s, m in M.all_methods(_api(case)))
+
+
+def has_client_streaming_unary(case):
+    return any(m.get("cs") and not m.get("ss") for _f, _s, m in M.all_methods(_api(case)))
+
+
+def uses_protobuf_value(case):
+    import json as _json
+    return ".google.protobuf.Value" in _json.dumps(_api(case))
+
+
+def sample_type_outside_root_module(case):
+    api = _api(case)
+    return uses_protobuf_value(case) or len({f["package"] for f in api.get("files", [])}) > 1
